@@ -8,6 +8,8 @@
 //!   r = `n = { ID("<input>") }` with ID returning its argument (resolve path of the resolver)
 //!   k = `k = { NAMED(x: "<input>") }` with NAMED returning its named argument x
 //!   t = `p = { -t(x: "<input>") }` with `-t = { $x }` (named argument of a parameterized term)
+//!   y = `y = { ID({ "<input>" }) }{ { "<input>" } }` (the literal wrapped in an inline placeable: as a function argument and
+//!       nested in a placeable; prints the decoded text twice)
 //!   q = `q = { "<input>" -> [a] A *[o] { "<input>" } }` (literal as selector; default arm prints it)
 use fluent_bundle::{FluentArgs, FluentBundle, FluentResource, FluentValue};
 use fluent_syntax::unicode::{unescape_unicode, unescape_unicode_to_string};
@@ -16,9 +18,9 @@ use std::borrow::Cow;
 use std::panic;
 
 fn through_bundle(input: &str) -> Vec<String> {
-    let na = |s: &str| vec![s.to_string(); 5];
+    let na = |s: &str| vec![s.to_string(); 6];
     let src = format!(
-        "m = {{ \"{0}\" }}\nn = {{ ID(\"{0}\") }}\nk = {{ NAMED(x: \"{0}\") }}\n-t = {{ $x }}\np = {{ -t(x: \"{0}\") }}\nq = {{ \"{0}\" ->\n [a] A\n *[o] {{ \"{0}\" }}\n }}\n",
+        "m = {{ \"{0}\" }}\nn = {{ ID(\"{0}\") }}\nk = {{ NAMED(x: \"{0}\") }}\n-t = {{ $x }}\np = {{ -t(x: \"{0}\") }}\nq = {{ \"{0}\" ->\n [a] A\n *[o] {{ \"{0}\" }}\n }}\ny = {{ ID({{ \"{0}\" }}) }}{{ {{ \"{0}\" }} }}\n",
         input
     );
     // a panic inside the parser is C01's business (finding F1), not an observation of the decoder
@@ -64,7 +66,7 @@ fn through_bundle(input: &str) -> Vec<String> {
         (Err(e), _, _) | (_, Err(e), _) | (_, _, Err(e)) => return na(e),
     };
     let mut out = vec![];
-    for id in ["m", "n", "k", "p", "q"] {
+    for id in ["m", "n", "k", "p", "q", "y"] {
         let o = match bundle.get_message(id).and_then(|m| m.value()) {
             Some(p) => {
                 let mut errs = vec![];
@@ -122,16 +124,16 @@ fn run(payload: &str) -> String {
         let inp = input.clone();
         let h = std::thread::Builder::new().stack_size(256 << 10).spawn(move || run_direct(&inp)).unwrap();
         return match h.join() {
-            Ok((s, w)) => format!("{};{};f:na;r:na;k:na;t:na;q:na", s, w),
-            Err(_) => "s:panic;w:panic;f:na;r:na;k:na;t:na;q:na".to_string(),
+            Ok((s, w)) => format!("{};{};f:na;r:na;k:na;t:na;q:na;y:na", s, w),
+            Err(_) => "s:panic;w:panic;f:na;r:na;k:na;t:na;q:na;y:na".to_string(),
         };
     }
     let (s, w) = run_direct(&input);
     let b = match panic::catch_unwind(|| through_bundle(&input)) {
         Ok(x) => x,
-        Err(_) => vec!["panic".to_string(); 5],
+        Err(_) => vec!["panic".to_string(); 6],
     };
-    format!("{};{};f:{};r:{};k:{};t:{};q:{}", s, w, b[0], b[1], b[2], b[3], b[4])
+    format!("{};{};f:{};r:{};k:{};t:{};q:{};y:{}", s, w, b[0], b[1], b[2], b[3], b[4], b[5])
 }
 
 fn run_direct(input: &str) -> (String, String) {
